@@ -9,6 +9,12 @@ package main
 //     file ("%d %d") with Sprintf and parses them back, so the opaque text of
 //     the general stub is not enough.  Everything else falls back to the
 //     general stub.
+//   - os.IsExist/IsNotExist/IsPermission: package os is never initialised by
+//     the engine (its init touches the runtime), so os.ErrExist & co. are nil
+//     and the real predicates would always answer false; the intrinsic runs
+//     the real os.underlyingErrorIs against the io/fs sentinel the os
+//     variable is an alias of.  journal.Store.commit decides "retry" with
+//     os.IsExist.
 //   - time.After: a channel that is ready at once (time is not modelled; the
 //     HEAD parse-retry loop of journal.readID waits on it).
 //   - math/rand.Intn: 0 (environment; only used as back-off jitter).
@@ -33,6 +39,11 @@ func init() {
 		}
 		return general(in, fr, fn, a)
 	}
+	for fname, sentinel := range map[string]string{"os.IsExist": "ErrExist", "os.IsNotExist": "ErrNotExist", "os.IsPermission": "ErrPermission"} {
+		if _, ok := intrinsics[fname]; !ok {
+			intrinsics[fname] = c17OsIs(sentinel)
+		}
+	}
 	if _, ok := intrinsics["time.After"]; !ok {
 		intrinsics["time.After"] = func(in *Interp, fr *frame, fn *ssa.Function, a []Value) Value {
 			elem := fn.Signature.Results().At(0).Type().Underlying().(*types.Chan).Elem()
@@ -43,6 +54,18 @@ func init() {
 		intrinsics["math/rand.Intn"] = func(in *Interp, fr *frame, fn *ssa.Function, a []Value) Value {
 			return in.tt.BVConst(0, 64)
 		}
+	}
+}
+
+func c17OsIs(sentinel string) intrinsic {
+	return func(in *Interp, fr *frame, fn *ssa.Function, a []Value) Value {
+		f := in.findFunc("os", "underlyingErrorIs")
+		pkg := in.prog.ImportedPackage("io/fs")
+		if f == nil || pkg == nil || pkg.Var(sentinel) == nil {
+			unsupported("os error predicate: os.underlyingErrorIs or io/fs.%s not loaded", sentinel)
+		}
+		target := in.load(fr, in.globalPtr(pkg.Var(sentinel)))
+		return in.callSSA(fr, f, []Value{a[0], target}, nil)
 	}
 }
 
